@@ -31,6 +31,26 @@ class SymStr:
     def __repr__(self):
         return "SymStr(" + "".join(p if isinstance(p, str) else "{?}" for p in self.parts) + ")"
 
+    # a structured text is a string: its methods / concatenation are those of the abstract-string model (pyvc/strmodel.py)
+    def __pyvc_getattr__(self, eng, name):
+        from . import strmodel
+
+        return strmodel.method(eng, self, name)
+
+    def __pyvc_binop__(self, eng, op, a, b):
+        from . import strmodel
+
+        if isinstance(op, ast.Add) and strmodel.is_strlike(a) and strmodel.is_strlike(b):
+            return SymStr(strmodel.flatten(a) + strmodel.flatten(b))
+        if isinstance(op, ast.Add) and isinstance(a, tuple) and type(a) is not tuple:
+            return a + b  # a contract module's own structured-text class (tuple subclass with __add__)
+        if isinstance(op, ast.Add) and isinstance(b, tuple) and type(b) is not tuple:
+            return a + b
+        raise Unsupported(f"{type(op).__name__} on a structured string")
+
+    def __pyvc_isinstance__(self, cls):
+        return cls is str
+
 
 class FmtPiece:
     """format(v, spec) of a symbolic scalar: kept structured for contracts."""
@@ -470,6 +490,7 @@ def setitem(eng, base, idx, val):
 
         return npmodels.setitem(eng, base, idx, val)
     if isinstance(base, PDict):
+        check_frame(eng, base)  # a dict that belongs to a frozen input (its column table, a cache the constructor made) may not be stored into
         if base.items is not None:
             if isinstance(idx, Sym):
                 raise Unsupported("symbolic key store into a concrete dict (add a `types` hint)")
@@ -524,7 +545,7 @@ def contains(eng, container, item):
         return container.__pyvc_contains__(eng, item)
     if isinstance(container, PDict):
         if container.items is not None:
-            if isinstance(item, Sym):
+            if isinstance(item, Sym) or hasattr(item, "__pyvc_compare__"):
                 raise Unsupported("symbolic `in` on a concrete dict")
             return item in container.items
         return eng.sbool(z3.Select(container.dom, to_z3(item, "int")))
@@ -549,7 +570,7 @@ def contains(eng, container, item):
             acc = eng.or_(acc, eng.compare(ast.Eq(), item, x))
         return acc
     if isinstance(container, (tuple, list, set, frozenset, dict, str, range)):
-        if isinstance(item, Sym):
+        if isinstance(item, Sym) or hasattr(item, "__pyvc_compare__"):
             acc = False
             for x in container:
                 acc = eng.or_(acc, eng.compare(ast.Eq(), item, x))
@@ -604,6 +625,9 @@ def _m_extend(eng, recv, args, kwargs):
     if recv.items is not None:
         if not recv.items and isinstance(src, SArr):
             return _extend_empty_by_array(eng, recv, src)
+        tail = src.seq if isinstance(src, Iter) and not src.consumed else src
+        if isinstance(tail, PList) and tail.items is None and not tail.tup and getattr(eng, "extend_hook", None) is None:
+            return _extend_concrete_by_symbolic(eng, recv, src, tail)
         recv.items.extend(iterate_concrete(eng, src))
         return None
     hook = getattr(eng, "extend_hook", None)
@@ -630,6 +654,25 @@ def _m_extend(eng, recv, args, kwargs):
     raise Unsupported("extend of a symbolic list by this kind of iterable")
 
 
+def _extend_concrete_by_symbolic(eng, recv, src, tail):
+    """concrete_list.extend(symbolic list): the list becomes a symbolic one, its present elements followed by the elements of the
+    iterable in order (the present elements must be storable under the element kind / protocol of the iterable)"""
+    from . import strmodel
+
+    kind, proto = tail.kinds[0], tail.proto
+    ids = [strmodel.elem_id(eng, x, kind, proto) for x in recv.items]
+    k = len(ids)
+    i = z3.Int(fresh_name("ex"))
+    body = z3.Select(tail.cols[0], i - k)
+    for j in range(k - 1, -1, -1):
+        body = z3.If(i == j, ids[j], body)
+    recv.items, recv.kinds, recv.tup = None, [kind], False
+    recv.cols, recv.n, recv.proto = [z3.Lambda([i], body)], z3.simplify(k + zint(tail.n)), proto
+    if isinstance(src, Iter):
+        src.consumed = True
+    return None
+
+
 def _extend_empty_by_array(eng, recv, src):
     """[].extend(ndarray): the list becomes the array's elements in order"""
     recv.items, recv.kinds, recv.tup = None, [src.kind], False
@@ -653,6 +696,8 @@ def _m_clear(eng, recv, args, kwargs):
 
 
 def _m_copy(eng, recv, args, kwargs):
+    if hasattr(recv, "__pyvc_copy__"):  # extension containers (pyvc/ext_*.py) copy themselves
+        return recv.__pyvc_copy__(eng)
     if isinstance(recv, PList):
         c = PList()
         c.proto = recv.proto
@@ -870,6 +915,17 @@ def scalar_attr(eng, v, name):
         from . import npmodels
 
         return npmodels.dtype_of_kind(v.kind)
+    if name == "bit_length" and getattr(v, "kind", None) == "int":
+        def _bit_length(e, r, a, k):
+            if a or k:
+                raise Unsupported("int.bit_length with arguments")
+            e.assumptions.add("builtin-model:int.bit_length(): some k with 0 <= k <= |v| and (k == 0 iff v == 0) (the exact power-of-two bounds are not modelled)")
+            out = fresh("int", "bit_length")
+            av = z3.If(r.z >= 0, r.z, -r.z)
+            e.assume(z3.And(out.z >= 0, out.z <= av, (out.z == 0) == (r.z == 0)))
+            return out
+
+        return NativeMethod(_bit_length, v, name)
     raise Unsupported(f"attribute {name} of a scalar")
 
 
@@ -1242,6 +1298,8 @@ def _b_str(eng, args, kwargs):
     v = args[0]
     if isinstance(v, (Sym, SymStr, FmtPiece)):
         return FmtPiece(v, "str")
+    if hasattr(v, "__pyvc_isinstance__") and v.__pyvc_isinstance__(str):
+        return v  # str(s) of an (abstract) string is the string
     return str(unwrap(v))
 
 
@@ -1303,10 +1361,41 @@ def _b_deepcopy(eng, args, kwargs):
     return deepcopy_value(args[0])
 
 
+def _b_copy(eng, args, kwargs):
+    """copy.copy: ONE new object; an instance gets a new field table holding the very same field values (nothing below the first
+    level is duplicated), list / dict get a new container with the same elements, an ndarray a fresh copy of its data
+    (ndarray.__copy__)."""
+    (v,) = args
+    if hasattr(v, "__pyvc_copy__"):
+        return v.__pyvc_copy__(eng)
+    if isinstance(v, Obj):
+        custom = ("__copy__", "__reduce_ex__", "__reduce__", "__getstate__", "__setstate__")
+        if any((n in c.__dict__) or c.__dict__.get("__slots__") for c in getattr(v.cls, "__mro__", ()) for n in custom if c is not object):
+            raise Unsupported("copy.copy of an instance of a class that customises copying / pickling")
+        eng.assumptions.add("copy.copy of a plain instance: a new object of the same class whose attributes are the SAME values (shallow)")
+        return Obj(v.cls, dict(v.fields), name=v.name)
+    if isinstance(v, PList):
+        return _b_list(eng, [v], {})
+    if isinstance(v, PDict):
+        return _b_dict(eng, [v], {})
+    if isinstance(v, (SArr, NArr)):
+        return method_of(eng, v, "copy").model(eng, v, [], {})
+    if isinstance(v, (Sym, int, float, Fraction, str, bool, tuple, frozenset, type(None))):
+        return v  # immutable: copy.copy returns the object itself
+    raise Unsupported(f"copy.copy of {type(v).__name__}")
+
+
+def _b_slice(eng, args, kwargs):
+    """slice(stop) / slice(start, stop[, step]): the same object the subscript syntax a[start:stop:step] builds"""
+    if kwargs or not 1 <= len(args) <= 3:
+        raise ProgExc(TypeError, "slice expected 1 to 3 positional arguments")
+    return slice(*args)
+
+
 import copy as _copy  # noqa: E402
 
 BUILTIN_MODELS = {
-    _copy.deepcopy: _b_deepcopy,
+    _copy.deepcopy: _b_deepcopy, _copy.copy: _b_copy, slice: _b_slice,
     len: _b_len, range: _b_range, isinstance: _b_isinstance, bool: _b_bool, int: _b_int, float: _b_float,
     list: _b_list, tuple: _b_tuple, dict: _b_dict, collections.defaultdict: _b_defaultdict, zip: _b_zip,
     enumerate: _b_enumerate, map: _b_map, iter: _b_iter, next: _b_next, min: _b_min, max: _b_max,
@@ -1385,11 +1474,20 @@ def inplace_binop(eng, op, cur, val):
 
 def concat_lists(eng, a, b):
     """list + list where at least one side has symbolic length."""
+    other = {id(a): b, id(b): a}
+
     def view(p):
         if p.items is not None:
             items = p.items
             ks = [kind_of(x) for x in items]
             if any(k is None for k in ks):
+                o = other[id(p)]
+                if o.items is None and not o.tup and o.kinds == ["ref"]:
+                    # concrete strings / object handles next to a symbolic list of references: stored under the other side's element protocol
+                    from . import strmodel
+
+                    ids = [Sym(strmodel.elem_id(eng, x, "ref", o.proto), "ref") for x in items]
+                    return len(ids), ["ref"] * len(ids), (lambda i, k: _ite_chain(ids, i, k))
                 raise Unsupported("concatenation with a list of non-scalars")
             return len(items), ks, (lambda i, k: _ite_chain(items, i, k))
         if p.tup:
@@ -1406,6 +1504,9 @@ def concat_lists(eng, a, b):
     out.items, out.kinds, out.tup = None, [k], False
     out.cols = [z3.Lambda([i], z3.If(i < naz, ga(i, k), gb(i - naz, k)))]
     out.n = z3.simplify(naz + zint(nb))
+    protos = [p.proto for p in (a, b) if p.items is None and p.proto is not None]
+    if protos and all(q is protos[0] for q in protos):
+        out.proto = protos[0]
     return out
 
 
